@@ -43,6 +43,15 @@ theorem guarded_sites_checked : guardedOK = true := by decide +kernel
 safe by extracted guard (checked above), safe by prose argument: the trusted classifications) -/
 theorem classification_counts : classCounts = (86, 88, 83) := by decide +kernel
 
+/-- the session layer has exactly three statement lists that close a reply channel — completion in
+`handlePeerMsg`, completion in `handleRequest`, the expiry sweep in `Loop` —; their clean-up operations
+(regenerated: which map each `delete` clears, how many `close`s, no send after the close) are what
+`Cfg.current.peerClean / reqClean / expClean` feed into the model, and `guards_present` below pins all
+three to the complete clean-up (buffer AND registration deleted, channel closed once) on which the
+invariant of `session_layer_total` rests. A `delete` of the wrong map or a dropped one turns the flag
+off: the model then keeps the registration with its closed channel and predicts the later panic. -/
+theorem cleanup_paths : cleanupPaths = ["dkg.handlePeerMsg", "dkg.handleRequest", "dkg.Loop"] := by decide
+
 /-- every guard the models rely on is present in the current source -/
 theorem guards_present : Cfg.current = Cfg.all := by decide +kernel
 
@@ -238,6 +247,11 @@ example : outsFor "b" [.req "b" 2, .msg "a" (.deal 7), .msg "b" (.pk 0), .req "a
     = [.ok "reg 0", .ok "buf 1", .ok "fire 2"] := by decide
 example : (exchangePub Cfg.all 3 (.good 0) [[.good 1, .good 2 false]]) = .err "foreign" := by decide
 example : (exchangePub { Cfg.all with xpubIdx := false } 3 (.good 0) [[.good 7]]).isPanic = true := by decide
+-- the expiry sweep deleting the buffer twice instead of the registration (seeded change): the late message / next sweep panics
+example : (sessRun { Cfg.all with expClean := ⟨true, false, true⟩ } {} [.req "a" 1, .expire ["a"], .msg "a" (.pk 1)]).2.any Out.isPanic = true := by decide
+example : (sessRun { Cfg.all with expClean := ⟨true, false, true⟩ } {} [.req "a" 2, .expire ["a"], .expire ["a"]]).2.any Out.isPanic = true := by decide
+example : (sessRun { Cfg.all with peerClean := ⟨true, false, true⟩ } {} [.req "a" 1, .msg "a" (.pk 1), .msg "a" (.pk 2)]).2.any Out.isPanic = true := by decide
+example : (sessRun { Cfg.all with reqClean := ⟨true, false, true⟩ } {} [.msg "a" (.pk 1), .req "a" 1, .msg "a" (.pk 2)]).2.any Out.isPanic = true := by decide
 example : genDkg Cfg.all 3 [⟨0, some .own⟩, ⟨1, some (.peer 1)⟩, ⟨2, some .identity⟩] = .ok "" := by decide
 example : genDkg Cfg.all 3 [⟨0, some .own⟩, ⟨7, some (.peer 1)⟩, ⟨2, none⟩] = .err "badpk" := by decide
 example : (genDkg { Cfg.all with gdkgGuard := false } 3 [⟨0, some .own⟩, ⟨7, some (.peer 1)⟩, ⟨2, some (.peer 2)⟩]).isPanic = true := by decide
